@@ -21,7 +21,7 @@ import transfer_l1
 import c02
 
 FUEL = 8
-THEOREMS = ("C03_accessor_table / C03_exported_directive_is_fatal / C03_accessor_names / C03_get_after_set / "
+THEOREMS = ("C03_accessor_table / C03_emitted_accessors / C03_exported_directive_is_fatal / C03_get_after_set / "
             "C03_setter_frame / C03_interface_method_set / C03_pointer_receiver_satisfies")
 CORR = "Model.CtorGetSet Corr.CtorCorr Corr.CtorGetSetCorr"
 
@@ -412,6 +412,7 @@ def h_typespec_doc(run, shoot):
 
 def finding_handlers(run, shoot, accbin=None):
     return {
+        "K_ctor_method_name_collision": ctor_findings.h_method_collision(run, shoot),
         "K_getset_shadow_type_conflict": h_shadow_type_conflict(run, shoot),
         "K_getset_typespec_doc": h_typespec_doc(run, shoot),
         "K_getset_field_hides_accessor": h_field_hides(run, shoot, accbin),
@@ -480,7 +481,7 @@ def main(run):
     outcome = run.replay_findings(finding_handlers(run, shoot, accbin))
     run.log("findings replayed")
 
-    npk = 600 if run.thorough() else 50
+    npk = 600 if run.thorough() else 40
     pkgs, gstats = gen_packages(run, npk)
     obs, mod = observe(run, shoot, accbin, "c03mod", pkgs)
     pkgdefs, rendered = render_cases(pkgs, obs)
